@@ -19,12 +19,13 @@ Everything is total and executable; the theorems are in `Srctools/Proofs/Heap.le
 -/
 namespace Heap
 
+/-- Locations are natural numbers (indices into the store); written `Nat` throughout so that `omega` sees them. -/
 abbrev Loc := Nat
 abbrev Val := Int
 
 inductive Slot where
   | val (v : Val)
-  | ref (l : Loc)
+  | ref (l : Nat)
   deriving Repr, DecidableEq, Inhabited
 
 structure Obj where
@@ -44,12 +45,12 @@ inductive Tree where
   | dangling
   deriving Repr, Inhabited
 
-def absSlot (rec : Loc → Tree) : Slot → Tree
+def absSlot (rec : Nat → Tree) : Slot → Tree
   | .val v => .atom v
   | .ref r => rec r
 
 /-- Abstraction to depth `n`. -/
-def abs : Nat → Store → Loc → Tree
+def abs : Nat → Store → Nat → Tree
   | 0, _, _ => .cut
   | n + 1, h, l =>
     match h[l]? with
@@ -57,13 +58,13 @@ def abs : Nat → Store → Loc → Tree
     | some o => .node o.cls o.mu (o.fields.map fun p => (p.1, absSlot (abs n h) p.2))
 
 /-- Reachability through reference fields. -/
-inductive Reach (h : Store) : Loc → Loc → Prop where
-  | refl (l : Loc) : Reach h l l
-  | step {l : Loc} {o : Obj} {f : Nat} {r x : Loc} :
+inductive Reach (h : Store) : Nat → Nat → Prop where
+  | refl (l : Nat) : Reach h l l
+  | step {l : Nat} {o : Obj} {f : Nat} {r x : Nat} :
       h[l]? = some o → (f, Slot.ref r) ∈ o.fields → Reach h r x → Reach h l x
 
 /-- `x` holds an immutable object. -/
-def IsImm (h : Store) (x : Loc) : Prop := ∃ o, h[x]? = some o ∧ o.mu = false
+def IsImm (h : Store) (x : Nat) : Prop := ∃ o, h[x]? = some o ∧ o.mu = false
 
 /-- A slot that can be shared safely: an atom or a reference to an immutable object. -/
 def ImmSlot (h : Store) : Slot → Prop
@@ -77,11 +78,11 @@ def slotValid (h : Store) : Slot → Bool
 def objValid (h : Store) (o : Obj) : Bool := o.fields.all fun p => slotValid h p.2
 
 /-- No dangling references. -/
-def Closed (h : Store) : Prop := ∀ (l : Loc) (o : Obj), h[l]? = some o → ∀ p ∈ o.fields, slotValid h p.2 = true
+def Closed (h : Store) : Prop := ∀ (l : Nat) (o : Obj), h[l]? = some o → ∀ p ∈ o.fields, slotValid h p.2 = true
 
 /-- Immutable objects only refer to atoms and immutable objects (deep immutability). -/
 def ImmClosed (h : Store) : Prop :=
-  ∀ (l : Loc) (o : Obj), h[l]? = some o → o.mu = false → ∀ p ∈ o.fields, ImmSlot h p.2
+  ∀ (l : Nat) (o : Obj), h[l]? = some o → o.mu = false → ∀ p ∈ o.fields, ImmSlot h p.2
 
 /-! ## Copy -/
 
@@ -91,44 +92,39 @@ inductive Treat where
 
 def missingVal : Val := -1
 
-/-- Copy the fields of one object left to right, threading the store. `cp` copies a referenced
-object (the recursive call). -/
-def copyFields (cp : Store → Loc → Option (Store × Loc)) (tr : Nat → Treat) :
+/-- Copy one slot under treatment `t`; returns the new store and the slot of the copy.
+`cp` copies a referenced object (the recursive call). -/
+def copySlot (cp : Store → Nat → Option (Store × Nat)) (t : Treat) (h : Store) (s : Slot) :
+    Option (Store × Slot) :=
+  match t, s with
+  | .missing, _ => some (h, .val missingVal)
+  | .deep, .ref r =>
+    match cp h r with
+    | none => none
+    | some (h1, r') => some (h1, .ref r')
+  | .shallow, .ref r =>
+    match h[r]? with
+    | none => none
+    | some o => if o.mu then some (h ++ [o], .ref h.length) else some (h, .ref r)
+  | .deep, .val v => some (h, .val v)
+  | .shallow, .val v => some (h, .val v)
+  | .keep, s => some (h, s)
+
+/-- Copy the fields of one object left to right, threading the store. -/
+def copyFields (cp : Store → Nat → Option (Store × Nat)) (tr : Nat → Treat) :
     Store → List (Nat × Slot) → Option (Store × List (Nat × Slot))
   | h, [] => some (h, [])
   | h, (f, s) :: rest =>
-    match tr f, s with
-    | .missing, _ =>
-      match copyFields cp tr h rest with
+    match copySlot cp (tr f) h s with
+    | none => none
+    | some (h1, s') =>
+      match copyFields cp tr h1 rest with
       | none => none
-      | some (h2, rest') => some (h2, (f, .val missingVal) :: rest')
-    | .deep, .ref r =>
-      match cp h r with
-      | none => none
-      | some (h1, r') =>
-        match copyFields cp tr h1 rest with
-        | none => none
-        | some (h2, rest') => some (h2, (f, .ref r') :: rest')
-    | .shallow, .ref r =>
-      match h[r]? with
-      | none => none
-      | some o =>
-        if o.mu then
-          match copyFields cp tr (h ++ [o]) rest with
-          | none => none
-          | some (h2, rest') => some (h2, (f, .ref h.length) :: rest')
-        else
-          match copyFields cp tr h rest with
-          | none => none
-          | some (h2, rest') => some (h2, (f, .ref r) :: rest')
-    | _, _ =>
-      match copyFields cp tr h rest with
-      | none => none
-      | some (h2, rest') => some (h2, (f, s) :: rest')
+      | some (h2, rest') => some (h2, (f, s') :: rest')
 
 /-- The copy directed by `tr : class → field → Treat`; `none` when the fuel `n` is exhausted
 (cyclic or too deep) or a reference dangles. Immutable objects are never copied. -/
-def copyWith (tr : Nat → Nat → Treat) : Nat → Store → Loc → Option (Store × Loc)
+def copyWith (tr : Nat → Nat → Treat) : Nat → Store → Nat → Option (Store × Nat)
   | 0, _, _ => none
   | n + 1, h, l =>
     match h[l]? with
@@ -140,7 +136,7 @@ def copyWith (tr : Nat → Nat → Treat) : Nat → Store → Loc → Option (St
         | some (h1, fs) => some (h1 ++ [{ o with fields := fs }], h1.length)
       else some (h, l)
 
-def deepCopy : Nat → Store → Loc → Option (Store × Loc) := copyWith fun _ _ => .deep
+def deepCopy : Nat → Store → Nat → Option (Store × Nat) := copyWith fun _ _ => .deep
 
 /-! ## In-place mutation -/
 
@@ -155,13 +151,13 @@ def getField : List (Nat × Slot) → Nat → Option Slot
   | (g, t) :: rest, f => if g = f then some t else getField rest f
 
 inductive Op where
-  | write (l : Loc) (f : Nat) (s : Slot)   -- set or insert field `f` of object `l`
-  | del (l : Loc) (f : Nat)                -- remove field `f` of object `l`
+  | write (l : Nat) (f : Nat) (s : Slot)   -- set or insert field `f` of object `l`
+  | del (l : Nat) (f : Nat)                -- remove field `f` of object `l`
   | alloc (o : Obj)                        -- allocate `o` at the next location
   deriving Repr, Inhabited
 
 /-- The object an operation changes, if any. -/
-def Op.target : Op → Option Loc
+def Op.target : Op → Option Nat
   | .write l _ _ => some l
   | .del l _ => some l
   | .alloc _ => none
@@ -183,10 +179,10 @@ def run (ops : List Op) (h : Store) : Store := ops.foldl step h
 
 /-! ## Executable helpers (drivers) -/
 
-def refsOf (o : Obj) : List Loc :=
+def refsOf (o : Obj) : List Nat :=
   o.fields.filterMap fun p => match p.2 with | .ref r => some r | .val _ => none
 
-def reachAux (h : Store) : Nat → List Loc → List Loc → List Loc
+def reachAux (h : Store) : Nat → List Nat → List Nat → List Nat
   | 0, _, seen => seen
   | _ + 1, [], seen => seen
   | n + 1, l :: todo, seen =>
@@ -194,7 +190,7 @@ def reachAux (h : Store) : Nat → List Loc → List Loc → List Loc
     else reachAux h n ((match h[l]? with | some o => refsOf o | none => []) ++ todo) (l :: seen)
 
 /-- Locations reachable from `l` (worklist; fuel = number of edges + nodes + 1). -/
-def reachList (h : Store) (l : Loc) : List Loc :=
+def reachList (h : Store) (l : Nat) : List Nat :=
   reachAux h (h.length + (h.map fun o => o.fields.length).sum + 2) [l] []
 
 def closedB (h : Store) : Bool := h.all fun o => objValid h o
